@@ -132,7 +132,22 @@ def specGo (c : Case) : List (Op × Bool) → Bool → List Op → List Step →
      | none => false)
   | _, _, _, _ => false
 
-def spec (c : Case) (o : Obs) : Bool := specGo c [] c.start c.ops o.steps
+/-- nested observations: the probing callback's body ran once per call of that callback during the operation,
+    and each run satisfies the step rules *starting from the switch position observed before the operation* —
+    no operation moves the switch on the way to its callbacks -/
+def nestedOk (c : Case) : Bool → List Op → List Step → List (List (List Step)) → Bool
+  | _, [], [], [] => true
+  | prev, _ :: ops, s :: steps, n :: ns =>
+    (match c.probe with
+     | none => n == []
+     | some p => n.length == s.events.count p && n.all (fun inv => specGo c [] prev c.body inv)) &&
+    (match s.run.toBool? with
+     | some r => nestedOk c r ops steps ns
+     | none => false)
+  | _, _, _, _ => false
+
+def spec (c : Case) (o : Obs) : Bool :=
+  specGo c [] c.start c.ops o.steps && nestedOk c c.start c.ops o.steps o.nested
 
 /-- a reader names an existing class of the hierarchy (and an existing field of it) -/
 def opOk (c : Case) : Op → Bool
@@ -149,6 +164,10 @@ def opOk (c : Case) : Op → Bool
 def wf (c : Case) : Bool :=
   (bal 0 c.ops).isSome &&
   c.ops.all (opOk c) &&
+  -- a callback body closes the blocks it opens and leaves the switch as it found it
+  (bal 0 c.body == some 0 && c.body.all (opOk c) &&
+   (runSt { run := true, stack := [] } c.body).run == true &&
+   (runSt { run := false, stack := [] } c.body).run == false) &&
   (match c.fault with
    | none => true
    | some e => e.kind == "validator") &&
